@@ -135,7 +135,15 @@ def descr (l : Line) : IO Unit := do
   let tiqr := judge giqr (quantileR8 srt (mkRat 3 4) - quantileR8 srt (mkRat 1 4)) iqrTol
   let devOK := F64.isFinite gmean ∧ rabs (toRat gmean - smean) ≤ spread ∧
     (n ≤ 1 ∨ (F64.isFinite gvar ∧ rabs (toRat gvar - svar) ≤ 2 * spread * spread + kVar * uv))
-  let kfTag := if narrow ∧ (tmean != "ok" ∨ tvar != "ok") ∧ devOK then " kf=N12b" else ""
+  -- GeoMean runs the same incremental loop over log x: same stagnation; still inside [min, max]
+  let geoOK := tgeo == "ok" ∨ (F64.isFinite ggeo ∧ minOf xq ≤ toRat ggeo ∧ toRat ggeo ≤ maxOf xq)
+  -- narrow in the log domain: the spread of ln x is within 4n ulps of max|ln x|
+  let Lg : Rat := xq.foldl (fun a x => if x > 0 then rmax a (rabs ((ilog2 x : Int) : Rat) + 1) else a) 1
+  let narrowGeo := n ≥ 2 ∧ xq.all (· > 0) ∧ spread ≤ 4 * (n : Rat) * pow2 (-52) * Lg * minOf xq
+  let kfTag :=
+    if narrow ∧ (tmean != "ok" ∨ tvar != "ok" ∨ tgeo != "ok") ∧ devOK ∧ geoOK then " kf=N12b"
+    else if narrowGeo ∧ tmean == "ok" ∧ tvar == "ok" ∧ tgeo != "ok" ∧ geoOK then " kf=N12b"
+    else ""
   IO.println s!"spec {id} mean={tmean} var={tvar} sd={tsd} geo={tgeo} bounds={tbounds} pct={tpct} pmono={tmono} pbound={tbound} iqr={tiqr}{kfTag}"
 
 /-! ### t-tests -/
